@@ -716,7 +716,7 @@ def generate(prop: str, seed: int, tier: str = "quick", fault_free: bool = False
     if "derive_fail" in faults and any(d["typed"] >= 0 for d in datasets):
         ops = _add_nested_failures(st.get("faults3"), ops)
     if "threads" in faults:
-        ops = _add_lib_threads(st.get("faults6"), ops, prop)
+        ops = _add_lib_threads(st.get("faults6"), ops, prop, config)
     if "reentrancy" in faults:
         ops = _add_reentrancy(st.get("faults5"), ops, config, prop)
     if "lifetime" in faults:
@@ -753,7 +753,46 @@ REENT_SITES = [
 ]
 
 
-def _add_lib_threads(x, ops, prop):
+NESTED_TYPED = [t for t in TYPED if ".Select(" in t[1] or ".Where(" in t[1]]
+NESTED_UNTYPED = [t for t in UNTYPED if ".Select(" in t[1] or ".Where(" in t[1]]
+
+
+def _focused_threads(x, config, prop):
+    """A thread block built to make a narrow window reachable: the threads run the same KIND of
+    step (derives whose lambdas hold nested stream calls, on a dataset root where the type
+    follower has work to do; for C04 a call site that must be refused next to another site), one
+    of them is parked at a line drawn uniformly over its own length while the others run to the
+    end."""
+    ds = config["datasets"]
+    typed = [i for i, d in enumerate(ds) if d["typed"] >= 0]
+    out = []
+    if prop == "C04":
+        sites = config["sites"]
+        ks = [k for k, st in enumerate(sites) if st["free"] and not st.get("boom")
+              and st.get("reent") is None and not st.get("arg_unused")]
+        if not ks:
+            return out
+        k = x.choice(ks)
+        name = x.choice(sites[k]["free"])
+        bad = x.choice([["list", [1, 2]], ["dict", [["a", 1]]], ["obj"], ["tuple", [3, 4]]])
+        out.append({"op": "rebind", "name": name, "value": bad})
+        ths = [{"kind": "site", "stream": x.randrange(64), "lam": k},
+               {"kind": "site", "stream": x.randrange(64), "lam": x.randrange(64)}]
+        x.shuffle(ths)
+        out.append({"op": "mt_lib", "p": 0.03, "stop": True, "frac": x.random(), "threads": ths,
+                    "focused": True})
+        out.append({"op": "rebind", "name": name, "value": _gen_value(x, name, False)})
+        return out
+    root = {"root": x.choice(typed)} if typed and x.random() < 0.8 else {"root": x.randrange(len(ds))}
+    cat = NESTED_TYPED if (typed and root["root"] in typed) else NESTED_UNTYPED
+    ths = [{"kind": "derive", "stream": root, "lam": 0, "src": list(x.choice(cat))}
+           for _ in range(x.randint(2, 3))]
+    out.append({"op": "mt_lib", "p": 0.03, "stop": True, "frac": x.random(), "threads": ths,
+                "focused": True})
+    return out
+
+
+def _add_lib_threads(x, ops, prop, config=None):
     "Blocks of user threads that use the library concurrently, pre-empted between its lines."
     kinds = {"C11": ["derive", "derive", "site", "clean", "hash"],
              "C12": ["clean", "clean", "derive", "hash"],
@@ -766,6 +805,8 @@ def _add_lib_threads(x, ops, prop):
             # library's lines as well (not only at the steps of their event loops)
             op = {**op, "p": x.choice([0.02, 0.1, 0.3])}
         out.append(op)
+        if config is not None and op["op"] in ("derive", "rebind", "md", "qmd") and x.random() < 0.2:
+            out.extend(_focused_threads(x, config, prop))
         if op["op"] in ("derive", "qmd", "md", "exec_sync") and x.random() < 0.12:
             ths = [{"kind": x.choice(kinds), "stream": x.randrange(64), "lam": x.randrange(64)}
                    for _ in range(x.randint(2, 3))]
@@ -774,7 +815,7 @@ def _add_lib_threads(x, ops, prop):
                 # in the same function at the same time
                 ths = [{**t, "kind": ths[0]["kind"], "lam": ths[0]["lam"]} for t in ths]
             out.append({"op": "mt_lib", "p": x.choice([0.01, 0.03, 0.1, 0.3]), "stop": x.random() < 0.5,
-                        "frac": x.random(), "threads": ths})
+                        "frac": x.random(), "threads": ths, "opcodes": x.random() < 0.3})
     return out
 
 
@@ -2647,9 +2688,14 @@ class Forest:
         jobs = []
         for i, t in enumerate(op["threads"]):
             kind = t["kind"]
-            m = self.live[t["stream"] % len(self.live)]
+            if isinstance(t["stream"], dict):  # {"root": k}: the root stream of dataset k
+                m = self.live[t["stream"]["root"] % len(self.cfg["datasets"])]
+            else:
+                m = self.live[t["stream"] % len(self.live)]
             if kind == "derive":
                 pk, src = self.cfg["pool"][t["lam"] % len(self.cfg["pool"])]
+                if t.get("src"):
+                    pk, src = t["src"]
                 # the same derive made alone, just before: what the threaded one must equal
                 alone, ex0 = self.builder(lambda: getattr(m.stream, pk)(src))
                 exp = None if ex0 is not None else self.snap_of(alone)
@@ -2689,7 +2735,14 @@ class Forest:
             return
         rng = random.Random(mix(self.case["sched_seed"], "preempt", self.cur_id))
         pr = Preempt(rng, op["p"], func_adl_src().rstrip("/") + "/func_adl/")
-        if op.get("stop"):
+        if op.get("opcodes"):
+            # bytecode granularity, race-directed (threads parked right before they write a
+            # module global - always - or an attribute / item - now and then)
+            pr.opcodes = True
+            pr.p = op["p"] / 60.0
+            pr.directed = 0.01
+            pr.max_switches = 6000
+        elif op.get("stop"):
             # one thread is parked at its line N while the others run to the end; N is uniform
             # over the lines that call executes when it is made alone (counted now)
             pr._preimport()
@@ -2710,6 +2763,8 @@ class Forest:
         n0 = self.exec_starts
         res = pr.run([j[3] for j in jobs])
         self.stat("fault_threads_inside_the_library")
+        if op.get("focused"):
+            self.stat("fault_threads_focused_block")
         self.stat("thread_switches_inside_the_library", pr.switches)
         self.ev("mt_lib", len(jobs), pr.switches, pr.points)
         if self.exec_starts != n0 and "C12" in self.oracles:
